@@ -192,7 +192,9 @@ class Net:
         net = self
         real = self.saved[0]
         C.socket = types.SimpleNamespace(
-            getaddrinfo=lambda host, port, fam=0, typ=0, *a: [(2, 1, 6, '', (host, port))],
+            # like a resolver: a NAME resolves to an address that is not the name (the handshake must still carry the name)
+            getaddrinfo=lambda host, port, fam=0, typ=0, *a: [(2, 1, 6, '', (
+                host if host.replace('.', '').isdigit() else '192.0.2.%d' % (sum(host.encode()) % 250 + 1), port))],
             socket=lambda *a: FakeSocket(net, *a), AF_INET=2, AF_INET6=10, SOCK_STREAM=1,
             SHUT_RDWR=2, error=OSError, timeout=real.timeout, gaierror=real.gaierror)
 
